@@ -93,6 +93,10 @@ ASSUMPTIONS = [
     "tuning direction: for each operator type the harness measures, with common random numbers on a fixed small target, "
     "whether the squared jump of the parameters whose proposal the tuning parameter scales (block update: the "
     "precision) grows or shrinks with tuning_parameter; DualAveragingStepSize is not generated (not monotone per step)",
+    "non-finite combinations the statement determines: current -inf (zero density, only possible at the start of a run: a start "
+    "outside a bounded prior made with validate_args=False through the Distribution constructor) and finite proposal: change = "
+    "+inf, min(1, exp(.)) = 1, the move must be accepted whatever the draw and tune() gets 1; finite -> -inf and finite -> NaN: "
+    "0, rejected; -inf -> -inf (another operator moves while the chain is still outside): the proposal has zero density, rejected",
     "outright rejection (re-derived from the statement): a proposal whose target is 0 / undefined (-inf or NaN from the fresh "
     "rebuild), or that the operator could not make (infinite ratio), has acceptance probability min(1, exp(.)) = 0: it must "
     "be rejected, every parameter restored bit-identically, tune() must be handed 0 (kind acceptance_probability, tag "
@@ -195,6 +199,8 @@ def toy_target(draw):
     kinds = [draw(st.sampled_from(REAL_KINDS)), draw(st.sampled_from(POS_KINDS))]
     extra = draw(st.lists(st.sampled_from(REAL_KINDS + POS_KINDS + ["dirichlet", "dirichlet", "dirichlet", "uniform", "uniform", "uniform"]), min_size=0, max_size=4))
     kinds += extra
+    if "uniform" not in kinds and draw(st.sampled_from([False, False, True])):
+        kinds.append("uniform")
     return {"blocks": [draw(toy_block(i, k)) for i, k in enumerate(kinds)]}
 
 
@@ -1355,19 +1361,25 @@ def _body(c, tmp):
                     if f_cur == -math.inf:
                         labels["escape_from_zero_density"] = labels.get("escape_from_zero_density", 0) + 1
                     la = (f_prop - f_cur) + (H_ref if H_ref is not None else H_impl)
-                    if len(us) != 1:
+                    alpha = alpha_ref = math.exp(min(0.0, la))
+                    hh = H_ref if H_ref is not None else H_impl
+                    nchecked["b"] += 1
+                    if la >= 0:
+                        # min(1, exp(.)) = 1: accepted whatever the uniform draw (includes change = +inf, i.e. leaving a
+                        # state of zero density)
+                        if not accepted:
+                            fail("decision", dict(where, u=None, alpha=1.0, accepted=accepted, delta=f_prop - f_cur, current=f_cur, proposed=f_prop, hastings=hh), cls)
+                    elif len(us) != 1:
                         fail("acceptance_draws", dict(where, draws=len(us)), cls)
                     else:
                         u = float(us[0][3].reshape(-1)[0])
-                        nchecked["b"] += 1
-                        alpha = alpha_ref = math.exp(min(0.0, la))
                         margin = abs(math.log(u) - la) if u > 0 else math.inf
-                        if la < 0 and margin < 1e-7:
+                        if margin < 1e-7:
                             labels["decision_tie"] = labels.get("decision_tie", 0) + 1
                         elif accepted != (u < alpha):
-                            fail("decision", dict(where, u=u, alpha=alpha, accepted=accepted, delta=f_prop - f_cur, hastings=H_ref if H_ref is not None else H_impl), cls)
-                        if "acc_prob" in r and not abs(r["acc_prob"] - alpha) <= 1e-7:
-                            fail("acceptance_probability", dict(where, passed_to_tune=r["acc_prob"], reference=alpha, delta=f_prop - f_cur, hastings=H_ref if H_ref is not None else H_impl), cls)
+                            fail("decision", dict(where, u=u, alpha=alpha, accepted=accepted, delta=f_prop - f_cur, hastings=hh), cls)
+                    if "acc_prob" in r and not abs(r["acc_prob"] - alpha) <= 1e-7:
+                        fail("acceptance_probability", dict(where, passed_to_tune=r["acc_prob"], reference=alpha, delta=f_prop - f_cur, hastings=hh), cls)
         if outright:
             labels["outright_rejection"] = labels.get("outright_rejection", 0) + 1
             # the acceptance probability handed to tune() must be the one of this proposal: 0
@@ -1553,5 +1565,5 @@ def selftest():
 
 def subchecks(tier):
     return [
-        Sub("runs", body, strategy=(lambda: cases(max_iter=150)) if tier == "quick" else cases, quick=150, thorough=4000, raising_is_failure=True, shrink_s=40),
+        Sub("runs", body, strategy=(lambda: cases(max_iter=150)) if tier == "quick" else cases, quick=200, thorough=4000, raising_is_failure=True, shrink_s=40),
     ]
